@@ -117,6 +117,18 @@ def _has_int_quotient(e):
     return False
 
 
+def _has_compound_int_denominator(e):
+    """a division in the text whose denominator is built from integer literals only and is not a single literal
+    (kb/(1 + 2*2)): sympy keeps such a denominator unevaluated, and the derivative of the quotient (the Rush-Larsen
+    linearisation) is then the integer quotient -1/(1 + 2*2); a single literal is folded into a Rational, which is
+    printed with decimal points"""
+    if isinstance(e, tuple):
+        if e[0] == "bin" and e[1] == "/" and _int_only(e[3]) and e[3][0] != "num":
+            return True
+        return any(_has_compound_int_denominator(y) for x in e[1:] if isinstance(x, (tuple, list)) for y in (x if isinstance(x, list) else [x]))
+    return False
+
+
 def _has_mod_ast(e):
     if isinstance(e, tuple):
         if e[0] == "mod":
@@ -137,6 +149,8 @@ def text_provenance(drv, m):
 
 def check_model(rep, drv, gen, rng, m, text, c, use_clang):
     prov_unsafe, prov_mod = text_provenance(drv, m)
+    _defs, _stv, _pav = lang.model_defs(m)
+    prov_den = any(_has_compound_int_denominator(e) for e in _defs.values())
     lay = c.impl_layout()
     ss, pn = lay["sorted_states"], lay["params"]
     n = len(ss)
@@ -246,7 +260,7 @@ def check_model(rep, drv, gen, rng, m, text, c, use_clang):
                             # linearisations may contain integer quotients, too
                             rep.violation(f"C {sch} slot {i} ({x}) = {ev[i]!r}, numpy module gives {pv[i]!r}",
                                           {"kind": "direct", "text": text, "inputs": pt, "scheme": sch},
-                                          finding_key="C02-integer-constant-division" if (prov_unsafe and _scheme_has_int_quotient(fns, sch, drv)) else None)
+                                          finding_key="C02-integer-constant-division" if ((prov_unsafe or prov_den) and _scheme_has_int_quotient(fns, sch, drv)) else None)
                             nfound += 1
                             break
         return nfound
